@@ -308,8 +308,19 @@ def udpServerUnpack (C : Ciphers) (now : Int) (nonAEADHeaderLen : Nat) (replayed
     let (a, pstart, plen) ← parseUDPClientMessageHeader now pt
     pure (a, pstart + messageHeaderStart, plen)
 
-/-- `(*ShadowPacketClientUnpacker).UnpackInPlace` up to the message header (session bookkeeping is C04's) -/
-def udpClientUnpack (C : Ciphers) (now : Int) (csid : Nat) (sessionOk : Bool) (replayed : Bool)
+/-- the client unpacker's two server-session slots: id and whether an AEAD is installed (both start as {0, none}) -/
+structure CliSess where
+  curID : Nat
+  curHasAEAD : Bool
+  oldID : Nat
+  oldHasAEAD : Bool
+deriving Repr, DecidableEq
+
+/-- `(*ShadowPacketClientUnpacker).UnpackInPlace`. The session-status switch picks a slot's AEAD when the separate header's
+server session id equals the slot's id; `guarded` (regenerated: `clientUnpackerGuardsNilAEAD`) = the case also requires the
+slot's AEAD to be non-nil. Calling `Open` on a nil `cipher.AEAD` is a nil-interface method call: a run-time panic.
+`tooSoon` = `time.Since(oldServerSessionLastSeenTime) < time.Minute`; `replayed` = the slot's sliding-window verdict. -/
+def udpClientUnpack (guarded : Bool) (C : Ciphers) (now : Int) (csid : Nat) (sess : CliSess) (tooSoon : Bool) (replayed : Bool)
     (b : Bytes) (ps pl : Nat) : R (Addr × Nat × Int) :=
   if pl < Gen.C06.UDPSeparateHeaderLength + 16 then .err .tooSmall else do
   let messageHeaderStart := ps + Gen.C06.UDPSeparateHeaderLength
@@ -320,11 +331,19 @@ def udpClientUnpack (C : Ciphers) (now : Int) (csid : Nat) (sessionOk : Bool) (r
   let sep := C.dec16 blk
   let _ := nonce0
   let nonce ← slice sep 4 16
-  let _ssid ← be64 sep
+  let ssid ← be64 sep
   let _spid ← sliceFrom sep 8 >>= be64
-  if !sessionOk then .err .tooManySessions else do
-  let _ ← sliceTo sep 8
-  if replayed then .err .replay else
+  -- session status: (the AEAD is installed, a sliding-window filter exists) or a new session
+  let slot : R (Bool × Bool) :=
+    if ssid = sess.curID ∧ (!guarded || sess.curHasAEAD) then .ok (sess.curHasAEAD, sess.curHasAEAD)
+    else if ssid = sess.oldID ∧ (!guarded || sess.oldHasAEAD) then .ok (sess.oldHasAEAD, sess.oldHasAEAD)
+    else if tooSoon then .err .tooManySessions
+    else do
+      let _ ← sliceTo sep 8                                   -- cipherConfig.AEAD(separateHeader[:8])
+      pure (true, false)
+  let (hasAEAD, hasFilter) ← slot
+  if hasFilter && replayed then .err .replay else
+  if !hasAEAD then .panic else                                -- saead.Open on a nil cipher.AEAD
   match C.aeadOpen nonce ct with
   | Option.none => .err .aead
   | some pt => do
